@@ -78,6 +78,8 @@ def run_shards(prop, shards, seed):
                 bi += 1
             time.sleep(0.05)
             for b in list(running):
+                if b not in running:
+                    continue
                 proc, t0, errf, idxs, hard = running[b]
                 rc = proc.poll()
                 if rc is None and time.monotonic() - t0 > hard:
@@ -95,6 +97,18 @@ def run_shards(prop, shards, seed):
                     else:
                         err = open(errf.name).read()[-1500:]
                         results[i] = empty(shards[i], 'shard process failed rc=%s: %s' % (rc, err))
+                if os.environ.get('VERIF_STOP_AT_FIRST') == '1' and any(results[i].get('violation') for i in idxs):
+                    # development aid for the seeded-change matrix (never set by a registered command): one counterexample
+                    # is enough, the shards not yet finished are recorded as not run
+                    bi = len(batches)
+                    for b2 in list(running):
+                        running[b2][0].kill()
+                        running[b2][0].wait()
+                        running[b2][2].close()
+                        del running[b2]
+                    for j in range(n):
+                        if results[j] is None:
+                            results[j] = dict(empty(shards[j], None), not_run=True)
     finally:
         for b in running:
             running[b][0].kill()
